@@ -40,9 +40,11 @@ def scenarios(rng, tier):
     for k in range(16 if tier == 'quick' else 300):
         mtu = rng.choice([576, 1500]); cfg = Cfg(0, mtu=mtu); own = cfg.own(); P = mtu - 34
         i1 = bytes((5 * j + k) & 255 for j in range(rng.choice([700, 3100, 4321]))); i2 = bytes((11 * j + 3) & 255 for j in range(rng.choice([500, 3100, 4321])))
+        if k % 4 == 1: i1 = None          # the platform has no icon (its getter fails) in the first session and one in the next
+        if k % 4 == 3: i1 = b''           # ... or an empty one
         s.start('resets_%d' % k); s.lines.append(cfg.line()); s.lines.append(gline(icon=i1, fname=b'name one', hwid=b'hw'))
         M = mac(1); s.frame(0, discover(M, gen=1))
-        for off in range(0, len(i1) + 1, P): s.frame(0, qlt(M, own, 14, off, seq=2))
+        for off in range(0, len(i1 or b'') + 1, P): s.frame(0, qlt(M, own, 14, off, seq=2))
         for step in rng.choice([('q', 't'), ('t',), ('q', 't', 'q'), ('t', 'q'), ('q', 'q', 't')]):
             s.frame(0, reset(rng.choice([M, mac(2)]), tos=1 if step == 'q' else 0))
         s.lines.append(gline(icon=i2, fname=b'name two is longer', hwid=b'hw'))
